@@ -424,6 +424,13 @@ func validateParamHeaders(header http.Header, msg *jsonrpc.Request, tool *Tool) 
 			continue
 		}
 
+		if _, present := header[http.CanonicalHeaderKey(fullHeader)]; present && headerVal == "" {
+			// An empty header value is how the empty string is sent: it is
+			// not a missing header.
+			if s, ok := unmarshalPrimitive(argRaw).(string); ok && s == "" {
+				continue
+			}
+		}
 		if headerVal == "" {
 			return fmt.Errorf("header mismatch: missing %s header for parameter %q", fullHeader, strings.Join(b.Path, "."))
 		}
